@@ -1,9 +1,12 @@
 -- written by bin/mkroundpins from /repo at commit 472862f
 namespace Mps.SrcPins.SrcCmpKeygen
 def f_keygen : List String := [
+  "decl:Rounds 5b2adf09f1060828c4946de7",
   "Start 85f9cf479ecb67eca3fdfdeb"
 ]
 def f_round1 : List String := [
+  "decl:_ a94b7286b68a45d300dc2cba",
+  "decl:round1 d0d68bd28c32174c66757f18",
   "round1.VerifyMessage 802d63134a23acda92d7513c",
   "round1.StoreMessage 802d63134a23acda92d7513c",
   "round1.Finalize 01b2795c26c43cd7ea1578db",
@@ -12,6 +15,9 @@ def f_round1 : List String := [
   "round1.Number b4fc1b1a37769dc302afcc74"
 ]
 def f_round2 : List String := [
+  "decl:_ b47c42aab0281c87ec3f25de",
+  "decl:round2 b0dab5dc3c3cd86b26ba6001",
+  "decl:broadcast2 e1dd5e5fa095e471e663e44a",
   "round2.StoreBroadcastMessage 88efda3f6bb94d9cb4ce31df",
   "round2.VerifyMessage 802d63134a23acda92d7513c",
   "round2.StoreMessage 802d63134a23acda92d7513c",
@@ -23,6 +29,9 @@ def f_round2 : List String := [
   "round2.Number afbf3b2d17fee1f6ce5e2421"
 ]
 def f_round3 : List String := [
+  "decl:_ b7100955b7674e785d6d5977",
+  "decl:round3 fb76f3807e227c7b94165bf7",
+  "decl:broadcast3 5401b9b71221d5996cf1d0ca",
   "round3.StoreBroadcastMessage a471c4e77191dde46e5102ee",
   "round3.VerifyMessage 802d63134a23acda92d7513c",
   "round3.StoreMessage 802d63134a23acda92d7513c",
@@ -33,6 +42,10 @@ def f_round3 : List String := [
   "round3.Number 79c98029d401cf189a9ed9a5"
 ]
 def f_round4 : List String := [
+  "decl:_ f4b9c235445f4b034681722d",
+  "decl:round4 5df67568fd927be229cdc746",
+  "decl:message4 49205e478a7775b126e05569",
+  "decl:broadcast4 770e993373ff0b8ec6193ab6",
   "round4.StoreBroadcastMessage 3c039176168daa6edc1a2649",
   "round4.VerifyMessage 867cdb7df045404ef0b87ab4",
   "round4.StoreMessage 2f462fb1e9b0c723b4ad4941",
@@ -44,6 +57,9 @@ def f_round4 : List String := [
   "round4.Number 2f0406b57b2a5ab93a363714"
 ]
 def f_round5 : List String := [
+  "decl:_ 4b6cd88f4aacdde33ff2c574",
+  "decl:round5 277613d7016dac545daf51d5",
+  "decl:broadcast5 ae8c35e25184dcac2ff84370",
   "round5.StoreBroadcastMessage 6169fb78ab6ab5e4b818c9ee",
   "round5.VerifyMessage 802d63134a23acda92d7513c",
   "round5.StoreMessage 802d63134a23acda92d7513c",
